@@ -22,7 +22,11 @@ PROVED HERE FOR A FRAGMENT OF THE COMPILER (`Cedar.SymC`, Cedar/SymCompile.lean;
 option_get is_none is_some if_false if_some record_get`, with `App` nodes and every non-literal branch kept, record
 terms and record term types, and the `Record` arm of `Term::from_value` for a flat context type, `ctxTermOf`):
   first fragment `SFrag` = bool / long / string / entity literals, `principal action resource`,
-  `! - && || if == < <= + - *`;  second fragment `SFrag2` = `SFrag` + `context`, `e.a`, `e has a` on RECORD-typed terms.
+  `! - && || if == < <= + - *`;  second fragment `SFrag2` = `SFrag` + `context`, `e.a`, `e has a` on RECORD-typed terms
+  + (third round) `e like pat` on string-typed terms and `e is T` on entity-typed terms (`compile_like`, factory
+  `string_like` with the evaluator's wildcard match, `compile_is`; both wrapped in `if_some(operand, …)`, which is what
+  symcc/compiler.rs AND symccopt/compiler.rs do — stream c18symc observes symccopt through
+  `CompiledPolicy::compile_with_custom_symenv`; an erroring operand gives `none`).  All `SFrag2` theorems cover them.
   * `compile_correct_fragment2`: on the literal environment of `req` whose context term represents the FLAT context
     (`CtxOK`: required attribute ↦ literal, optional present ↦ `some literal`, optional absent ↦ `none ty`, primitive
     attribute values only), if the compiler ACCEPTS `e ∈ SFrag2` the term it builds is the folded literal
@@ -54,8 +58,10 @@ terms and record term types, and the `Record` arm of `Term::from_value` for a fl
     and carry primitive values (`FlatConforms`, implied by schema conformance), so `hctx` is discharged for conformant
     requests.
 
-STILL NOT PROVED, NOT MODELLED: the compiler outside `SFrag2` (attributes / `has` on entities, `in`, tags, sets, record
-literals, nested-record / set-typed context attributes, `like`, `is`, extension functions), symccopt/compiler.rs'
+STILL NOT PROVED, NOT MODELLED: the compiler outside `SFrag2` (attributes / `has` on entities, `in`, tags, SETS — set
+literal terms, `contains/containsAll/containsAny/isEmpty`, set `==` with the factory's `set_member/set_subset/
+set_intersects` folding: not started, there is no `SFrag3` —, record literals, nested-record / set-typed context
+attributes, extension functions), symccopt/compiler.rs'
 footprint, the rest of the symbolizer (`SymEnv::from_concrete_env`) and the enforcer.  There the contract is *sampled* by
 the differential run of `./check C18` (harness/src/c18.rs: real `SymEnv::from_concrete_env`, both compilers, the real
 evaluator and authorizer); the fragment itself is additionally checked line by line against the Rust compiler by stream
